@@ -71,7 +71,7 @@ Theorem C08_alloc_linear_pgp_packets : forall data,
 Proof. intros. destruct (pgp_opaque_spec data) as [H _]. exact H. Qed.
 Print Assumptions C08_alloc_linear_pgp_packets.
 
-Theorem C08_alloc_linear_der : forall data, cost_of (der_parse_raw data) <= 216 * lenN data.
+Theorem C08_alloc_linear_der : forall data, cost_of (der_parse_raw data) <= 232 * lenN data.
 Proof. intros. destruct (der_parse_spec data) as [H _]. exact H. Qed.
 Print Assumptions C08_alloc_linear_der.
 
@@ -103,9 +103,11 @@ Example C08_alloc_linear_nonvacuous :
   exists l, component_log (bs "ssh1") data [] = Some l /\ log_cost l = 55 /\ is_ok (fst (ssh1_parse data [])) = true.
 Proof. exact alloc_linear_example. Qed.
 
-(* ---- recursion depth of the ASN.1 dump: at most half the input length (stack bound) ---- *)
+(* ---- recursion depth of the ASN.1 dump: at most half the input length and at most the
+   nesting limit maxDepth of the repaired ParseRaw (regenerated constant) (stack bound) ---- *)
 Theorem C08_der_depth : forall data items l,
-  der_parse_raw data = (Ok items, l) -> (2 * raws_depth items <= length data)%nat.
+  der_parse_raw data = (Ok items, l) ->
+  (2 * raws_depth items <= length data)%nat /\ N.of_nat (raws_depth items) <= der_max_depth.
 Proof. exact der_depth. Qed.
 Print Assumptions C08_der_depth.
 
@@ -120,14 +122,23 @@ Proof.
 Qed.
 Print Assumptions C08_ssh1_before_repair_refuted.
 
-(* F25, known findings: the third-party JKS and RPM readers size allocations from length and
-   count fields: more than 2^30 bytes for inputs below 8 KiB *)
+(* F25: the third-party JKS and RPM readers size allocations from length and count fields:
+   more than 2^30 bytes for inputs below 8 KiB (JKS: known finding; RPM: guarded in the repository) *)
 Theorem C08_jks_refuted : exists data,
   lenN data < 8192 /\ 1073741824 < cost_of (jks_parse data) /\ log_trusting (snd (jks_parse data)) = true.
 Proof. exists jks_witness. exact jks_refuted. Qed.
 Print Assumptions C08_jks_refuted.
 
+(* go-rpm as it is.  Since the repair of F25 in the repository (rpmCheckIndex in
+   internal/file/rpm.go) RPMFile no longer hands such input to the library: see the next theorem. *)
 Theorem C08_rpm_refuted : exists data,
   lenN data < 8192 /\ 1073741824 < cost_of (rpm_parse data) /\ log_trusting (snd (rpm_parse data)) = true.
 Proof. exists rpm_witness. exact rpm_refuted. Qed.
 Print Assumptions C08_rpm_refuted.
+
+(* the same witness through file.RPMFile (pre-validation, then the library): refused, nothing allocated *)
+Theorem C08_rpm_witness_refused_by_guard :
+  rpm_check_index rpm_witness = false /\ cost_of (rpm_file rpm_witness) = 0 /\
+  log_trusting (snd (rpm_file rpm_witness)) = false.
+Proof. exact rpm_witness_guarded. Qed.
+Print Assumptions C08_rpm_witness_refused_by_guard.
